@@ -330,3 +330,205 @@ pub fn evidence_json(cfg: &Cfg, info: &CheckInfo, rep: &Report, known_lines: &[S
         "violations": violations_new,
     })
 }
+
+// ---------------------------------------------------------------------------
+// Bounded execution of code under test that may not terminate
+
+thread_local! {
+    static STAGE: std::cell::RefCell<Option<std::sync::Arc<Mutex<String>>>> = const { std::cell::RefCell::new(None) };
+}
+
+/// Name the step the code under test is in (shown when a bounded run does not come back). No-op outside `run_bounded`.
+pub fn set_stage(s: &str) {
+    STAGE.with(|c| {
+        if let Some(a) = &*c.borrow() {
+            if let Ok(mut g) = a.lock() {
+                g.clear();
+                g.push_str(s);
+            }
+        }
+    });
+}
+
+pub enum Bounded<T> {
+    Done(T),
+    /// no result after `cpu_ms` of the helper thread's own CPU time; `stage` = last `set_stage`
+    Hang { cpu_ms: u64, stage: String },
+    /// the helper got (almost) no CPU for a very long time: no verdict
+    Starved,
+    /// the helper thread ended without a result (panic outside `guard`)
+    Died,
+}
+
+/// Helper threads abandoned in an endless computation (each keeps one core busy until the process exits).
+pub static ABANDONED_THREADS: AtomicUsize = AtomicUsize::new(0);
+/// Callers stop feeding bounded runs once this many helpers are stuck.
+pub const ABANDONED_CAP: usize = 4;
+
+fn thread_cpu_ns(tid: u64) -> Option<u64> {
+    let s = std::fs::read_to_string(format!("/proc/self/task/{tid}/schedstat")).ok()?;
+    s.split_whitespace().next()?.parse::<u64>().ok()
+}
+
+fn own_tid() -> Option<u64> {
+    let l = std::fs::read_link("/proc/thread-self").ok()?;
+    l.file_name()?.to_str()?.parse::<u64>().ok()
+}
+
+/// Run `f` on a helper thread. The bound is on the CPU time of that thread (read from /proc), not on wall-clock time,
+/// so a loaded machine cannot turn a slow run into a verdict. A helper that exceeds the bound is abandoned.
+pub fn run_bounded<T: Send + 'static>(cpu_limit_ms: u64, f: impl FnOnce() -> T + Send + 'static) -> Bounded<T> {
+    use std::sync::mpsc;
+    use std::time::Duration;
+    enum Msg<T> {
+        Tid(Option<u64>),
+        Done(T),
+    }
+    let stage = std::sync::Arc::new(Mutex::new(String::new()));
+    let st = stage.clone();
+    let (tx, rx) = mpsc::channel::<Msg<T>>();
+    let spawned = std::thread::Builder::new().name("bounded-helper".into()).stack_size(16 << 20).spawn(move || {
+        STAGE.with(|c| *c.borrow_mut() = Some(st));
+        let _ = tx.send(Msg::Tid(own_tid()));
+        let r = f();
+        let _ = tx.send(Msg::Done(r));
+    });
+    if spawned.is_err() {
+        return Bounded::Died;
+    }
+    let started = Instant::now();
+    let mut tid: Option<u64> = None;
+    let mut wait = Duration::from_millis(2);
+    loop {
+        match rx.recv_timeout(wait) {
+            Ok(Msg::Tid(t)) => tid = t,
+            Ok(Msg::Done(r)) => return Bounded::Done(r),
+            Err(mpsc::RecvTimeoutError::Timeout) => {
+                wait = (wait * 2).min(Duration::from_millis(200));
+                let cpu_ms = tid.and_then(thread_cpu_ns).map(|ns| ns / 1_000_000);
+                let wall_ms = started.elapsed().as_millis() as u64;
+                match cpu_ms {
+                    Some(c) if c >= cpu_limit_ms => {
+                        ABANDONED_THREADS.fetch_add(1, Ordering::SeqCst);
+                        let s = stage.lock().map(|g| g.clone()).unwrap_or_default();
+                        return Bounded::Hang { cpu_ms: c, stage: s };
+                    }
+                    // CPU time unreadable: fall back to a very generous wall-clock bound without verdict
+                    _ if wall_ms >= 40 * cpu_limit_ms.max(1000) => {
+                        ABANDONED_THREADS.fetch_add(1, Ordering::SeqCst);
+                        return Bounded::Starved;
+                    }
+                    _ => (),
+                }
+            }
+            Err(mpsc::RecvTimeoutError::Disconnected) => return Bounded::Died,
+        }
+    }
+}
+
+/// A reusable helper thread for many bounded runs (spawning a thread per run costs more than most runs).
+/// After a hang the stuck thread is abandoned and the next run gets a fresh one.
+pub struct BoundedWorker {
+    inner: Option<WorkerInner>,
+}
+
+type BoxedJob = Box<dyn FnOnce() -> Box<dyn std::any::Any + Send> + Send>;
+
+struct WorkerInner {
+    tx: std::sync::mpsc::Sender<BoxedJob>,
+    rx: std::sync::mpsc::Receiver<Box<dyn std::any::Any + Send>>,
+    tid: Option<u64>,
+    stage: std::sync::Arc<Mutex<String>>,
+}
+
+impl Default for BoundedWorker {
+    fn default() -> Self {
+        Self::new()
+    }
+}
+
+impl BoundedWorker {
+    pub fn new() -> BoundedWorker {
+        BoundedWorker { inner: None }
+    }
+
+    fn spawn() -> Option<WorkerInner> {
+        use std::sync::mpsc;
+        let stage = std::sync::Arc::new(Mutex::new(String::new()));
+        let st = stage.clone();
+        let (tx, job_rx) = mpsc::channel::<BoxedJob>();
+        let (res_tx, rx) = mpsc::channel::<Box<dyn std::any::Any + Send>>();
+        let (tid_tx, tid_rx) = mpsc::channel::<Option<u64>>();
+        std::thread::Builder::new()
+            .name("bounded-worker".into())
+            .stack_size(16 << 20)
+            .spawn(move || {
+                STAGE.with(|c| *c.borrow_mut() = Some(st));
+                let _ = tid_tx.send(own_tid());
+                while let Ok(job) = job_rx.recv() {
+                    let r = job();
+                    if res_tx.send(r).is_err() {
+                        break;
+                    }
+                }
+            })
+            .ok()?;
+        let tid = tid_rx.recv_timeout(std::time::Duration::from_secs(30)).ok().flatten();
+        Some(WorkerInner { tx, rx, tid, stage })
+    }
+
+    pub fn run<T: Send + 'static>(&mut self, cpu_limit_ms: u64, f: impl FnOnce() -> T + Send + 'static) -> Bounded<T> {
+        use std::sync::mpsc;
+        use std::time::Duration;
+        if self.inner.is_none() {
+            self.inner = Self::spawn();
+        }
+        let Some(w) = self.inner.as_ref() else { return Bounded::Died };
+        if let Ok(mut g) = w.stage.lock() {
+            g.clear();
+        }
+        let baseline = w.tid.and_then(thread_cpu_ns);
+        let job: BoxedJob = Box::new(move || Box::new(f()) as Box<dyn std::any::Any + Send>);
+        if w.tx.send(job).is_err() {
+            self.inner = None;
+            return Bounded::Died;
+        }
+        let started = Instant::now();
+        let mut wait = Duration::from_millis(20);
+        loop {
+            match w.rx.recv_timeout(wait) {
+                Ok(r) => {
+                    return match r.downcast::<T>() {
+                        Ok(b) => Bounded::Done(*b),
+                        Err(_) => Bounded::Died,
+                    }
+                }
+                Err(mpsc::RecvTimeoutError::Timeout) => {
+                    wait = (wait * 2).min(Duration::from_millis(200));
+                    let cpu_ms = match (baseline, w.tid.and_then(thread_cpu_ns)) {
+                        (Some(b), Some(c)) => Some(c.saturating_sub(b) / 1_000_000),
+                        _ => None,
+                    };
+                    let wall_ms = started.elapsed().as_millis() as u64;
+                    let verdict = match cpu_ms {
+                        Some(c) if c >= cpu_limit_ms => {
+                            let s = w.stage.lock().map(|g| g.clone()).unwrap_or_default();
+                            Some(Bounded::Hang { cpu_ms: c, stage: s })
+                        }
+                        _ if wall_ms >= 40 * cpu_limit_ms.max(1000) => Some(Bounded::Starved),
+                        _ => None,
+                    };
+                    if let Some(v) = verdict {
+                        ABANDONED_THREADS.fetch_add(1, Ordering::SeqCst);
+                        self.inner = None;
+                        return v;
+                    }
+                }
+                Err(mpsc::RecvTimeoutError::Disconnected) => {
+                    self.inner = None;
+                    return Bounded::Died;
+                }
+            }
+        }
+    }
+}
